@@ -139,6 +139,20 @@ theorem kcOut_tr (hn : KcNames nm) (c : Candle K) (hc : Plain c) (r : KcRow K) :
   obtain ⟨hi, hs⟩ := hc
   simp [kcOut, lookupKey, setKey, hi, hs, dset, dlookup, hn.nA, hn.nT, hn.nE, hn.AT, hn.AE, hn.TE, hn.nA.symm, hn.nT.symm, hn.nE.symm, hn.AT.symm, hn.AE.symm, hn.TE.symm]
 
+theorem kcMid_ema (hn : KcNames nm) (c : Candle K) (hc : Plain c) (t a e : Val K) :
+    readingByCandle (setKey true (nm ++ "_EMA") e (setKey true (nm ++ "_ATR") a
+      (setKey true (nm ++ "_ATR" ++ "_TR") t c))) (nm ++ "_EMA") = e := by
+  rw [readingByCandle_key _ hn.kE]
+  obtain ⟨hi, hs⟩ := hc
+  simp [lookupKey, setKey, hi, hs, dset, dlookup, hn.nA, hn.nT, hn.nE, hn.AT, hn.AE, hn.TE, hn.nA.symm, hn.nT.symm, hn.nE.symm, hn.AT.symm, hn.AE.symm, hn.TE.symm]
+
+theorem kcMid_atr (hn : KcNames nm) (c : Candle K) (hc : Plain c) (t a e : Val K) :
+    readingByCandle (setKey true (nm ++ "_EMA") e (setKey true (nm ++ "_ATR") a
+      (setKey true (nm ++ "_ATR" ++ "_TR") t c))) (nm ++ "_ATR") = a := by
+  rw [readingByCandle_key _ hn.kA]
+  obtain ⟨hi, hs⟩ := hc
+  simp [lookupKey, setKey, hi, hs, dset, dlookup, hn.nA, hn.nT, hn.nE, hn.AT, hn.AE, hn.TE, hn.nA.symm, hn.nT.symm, hn.nE.symm, hn.AT.symm, hn.AE.symm, hn.TE.symm]
+
 end out
 
 /-! ### the textbook series -/
@@ -463,16 +477,12 @@ theorem kc_step (p : Nat) (hp : 2 ≤ p) (nm input : String) (fld : Candle K →
         (setKey true (nm ++ "_ATR") (w.roundBy defaultRound)
           (setKey true (nm ++ "_ATR" ++ "_TR") (trStored raw m) (raw.getD m default)))],
                 i := done.length, name := nm } : Ctx K).reading (nm ++ "_EMA") = .ok (v.roundBy defaultRound) := by
-    rw [Ctx.reading_cur done _ [] nm, readingByCandle_key _ hn.kE]
-    obtain ⟨hi, hs⟩ := hc
-    simp [lookupKey, setKey, hi, hs, dset, dlookup, hn.nA, hn.nT, hn.nE, hn.AT, hn.AE, hn.TE, hn.nA.symm, hn.nT.symm, hn.nE.symm, hn.AT.symm, hn.AE.symm, hn.TE.symm]
+    rw [Ctx.reading_cur done _ [] nm, kcMid_ema nm hn _ hc]
   have hrA : ({ cs := done ++ [setKey true (nm ++ "_EMA") (v.roundBy defaultRound)
         (setKey true (nm ++ "_ATR") (w.roundBy defaultRound)
           (setKey true (nm ++ "_ATR" ++ "_TR") (trStored raw m) (raw.getD m default)))],
                 i := done.length, name := nm } : Ctx K).reading (nm ++ "_ATR") = .ok (w.roundBy defaultRound) := by
-    rw [Ctx.reading_cur done _ [] nm, readingByCandle_key _ hn.kA]
-    obtain ⟨hi, hs⟩ := hc
-    simp [lookupKey, setKey, hi, hs, dset, dlookup, hn.nA, hn.nT, hn.nE, hn.AT, hn.AE, hn.TE, hn.nA.symm, hn.nT.symm, hn.nE.symm, hn.AT.symm, hn.AE.symm, hn.TE.symm]
+    rw [Ctx.reading_cur done _ [] nm, kcMid_atr nm hn _ hc]
   have hO : valOf (kcP nm n (p : Int) input mult) done
       (setKey true (nm ++ "_EMA") (v.roundBy defaultRound)
         (setKey true (nm ++ "_ATR") (w.roundBy defaultRound)
